@@ -323,7 +323,7 @@ Definition pnum (id : N) (ps : list prop) : option N :=
   end.
 Definition handle_connack (x : ctx) (p : rxpkt) : ctx :=
   let sei' := match pnum 17 (r_props p) with Some v => v | None => sei x end in
-  let mp := match pnum 39 (r_props p) with Some v => Some v | None => maxpkt x end in
+  let mp := pnum 39 (r_props p) in       (* absent = no limit on this connection (fix: f454533) *)
   let rm := match pnum 33 (r_props p) with Some v => v | None => 65535 end in
   mkctx (awaiting x) (subs x) (retx x) (await_rel x) rm rm mp sei' (disc_ts x).
 
